@@ -11,7 +11,15 @@ use crate::ri;
 pub struct C01;
 
 pub fn flow_cfg() -> Cfg {
-    Cfg::flow()
+    let mut c = Cfg::flow();
+    // what operators mean and how they bind is C08's business, literal radix C20's, which
+    // device value an expression sees and whether a variable beats an output C04's: this
+    // profile parenthesises every operand, writes decimal literals, never names a variable
+    // like a signal, and talks to a device that answers the same on every call
+    c.expr.full_parens = true;
+    c.expr.radix = false;
+    c.vars_like_signals = false;
+    c
 }
 
 impl Property for C01 {
@@ -43,7 +51,8 @@ impl Property for C01 {
         let mut cfg = flow_cfg();
         // one case in twelve has a wide bus so that bits(k,e) with k up to 64 occurs
         cfg.bus = Ch::new(&s[1]).chance(1, 12);
-        let built = gen_case(&mut Ch::new(&s[0]), &cfg);
+        let mut built = gen_case(&mut Ch::new(&s[0]), &cfg);
+        parenthesise_program(&mut built.prog.stmts);
         out.class_if(cfg.bus, "wide-bus");
         built.prog.visit_stmts(&mut |st, _| {
             if let crate::model::Stmt::Row(_, es) | crate::model::Stmt::Repeat(_, _, es) = st {
@@ -68,6 +77,7 @@ impl Property for C01 {
                 both_driver_types: false,
             },
         );
+        let spec = DriverSpec { constant: true, ..spec };
         render_case(&mut out, &text, &built.sigs, Some(&spec));
         let f = feats(&built);
         feat_classes(&mut out, &f);
